@@ -7,7 +7,7 @@ INFO = {
     "assumptions": ['rwlock serialisability', 'table model adequacy'],
 }
 MANIFEST = {
-    "text": "REDUCED claim (interleavings are not symbolic: CBMC refuses this heap under threads). Readers hold the table rwlock for a whole query (C16), so they can only observe the live tables between write sections. The solver decides on the real reload branch of rtr_sync (skeleton families, symbolic old/new sets) that the live tables are written exactly once each -- by the swap of the complete shadow table -- on success and not at all on failure; on the real containers that copy_except_socket yields exactly the other caches' records and that swap exchanges both roots / hash table + list inside one write section of each table.",
+    "text": "REDUCED claim (interleavings are not symbolic: CBMC refuses this heap under threads). Readers hold the table rwlock for a whole query (C16), so they can only observe the live tables between write sections. The solver decides on the real reload branch of rtr_sync (skeleton families, symbolic old/new sets) that the live tables are written exactly once each -- by the swap of the complete shadow table -- on success and not at all on failure; on the real prefix containers (driver-enumerated table shapes, symbolic data) that copy_except_socket yields exactly the other caches' records in a valid table without touching the live one and that swap exchanges both roots inside one write section of each table; on the real router-key containers that swap exchanges hash table + list completely inside one write section of each table (the router-key copy: empty table and failure paths only, see DESIGN.md section 8).",
     "note": "Trusted and NOT machine-checked: POSIX rwlock semantics and the step from 'one publication point' to 'every interleaving sees old or new'. Prefix and router-key tables are swapped under two different locks, so atomicity is per table. Bounded as C03.",
     "technique": 'CBMC on real rtr_sync reload branch with live-table write ledger + real pfx/spki copy & swap units (sequential reduction)',
 }
